@@ -11,7 +11,7 @@ os.makedirs(dst, exist_ok=True)
 for f in ('patch.diff', 'demo.py', 'notes.txt'):
     if os.path.exists(os.path.join(src, f)) and os.path.abspath(src) != os.path.abspath(dst):
         shutil.copy(os.path.join(src, f), os.path.join(dst, f))
-meta = {'id': sid, 'property': prop, 'ran': []}
+meta = {'id': sid, 'property': prop, 'needs_to_manifest': json.load(open('/verif/seeded/NEEDS.json')).get(sid, 'see notes.txt'), 'ran': []}
 wt = tempfile.mkdtemp(prefix='seed-ev-')
 os.rmdir(wt)
 def sh(cmd, cwd=None, timeout=900):
